@@ -185,7 +185,22 @@ def main():
         p0 = rng.rand(N)
         p0 /= p0.sum()
         prop = PopulationPropagator(ta, rate_matrix=rm)
-        pops = prop.propagate(p0.copy())
+        # every sixth sample: all population on one state, written the way a
+        # user may type it (integer list, integer array, float list)
+        p0in = p0.copy()
+        pform = "float-array"
+        if s % 6 == 5:
+            k0 = int(rng.randint(N))
+            p0 = numpy.zeros(N)
+            p0[k0] = 1.0
+            pform = ("int-list", "int-array", "float-list")[(s // 6) % 3]
+            if pform == "int-list":
+                p0in = [int(x) for x in p0]
+            elif pform == "int-array":
+                p0in = p0.astype(int)
+            else:
+                p0in = [float(x) for x in p0]
+        pops = numpy.array(prop.propagate(p0in))
         # reference: spec'd Taylor polynomial and exact exponential
         L = 4
         T = sum(numpy.linalg.matrix_power(K * dt, l) / math.factorial(l)
@@ -202,6 +217,7 @@ def main():
         sums = float(numpy.abs(pops.sum(axis=1) - 1.0).max())
         admissible = dt * numpy.abs(numpy.diag(K)).max() <= 1.0
         sample = dict(N=N, g_dt=g * dt, Nt=Nt, err=err, bound=bound,
+                      p0_form=pform,
                       sum_defect=sums, admissible=bool(admissible),
                       min_pop=float(pops.min()))
         ck.case("sum-conserved", ("num", s), sample=sample)
@@ -216,7 +232,7 @@ def main():
             ck.case("non-negative", ("num", s), sample=sample)
             if pops.min() < -1e-14:
                 ck.violation("non-negative", "propagate", sample, rp)
-        if numpy.abs(pops[0] - p0).max() != 0:
+        if numpy.abs(pops[0] - numpy.asarray(p0, dtype=float)).max() != 0:
             ck.violation("initial-value-stored", "propagate", sample, rp)
 
         # propagation matrix on compatible sub-axes
